@@ -145,6 +145,13 @@ func (s *streamer) resetBlocked(stream *stream) {
 	s.blockedMu.Unlock()
 }
 
+func (s *streamer) isBlocked(stream *stream) bool {
+	s.blockedMu.Lock()
+	defer s.blockedMu.Unlock()
+
+	return stream.blockIndex != -1
+}
+
 func (s *streamer) heartbeat() {
 	streams := make([]*stream, 0)
 	for {
